@@ -20,7 +20,8 @@ def BucketPost (key : Bytes) (o : WriteOpts) (chunks : List Bytes) (b0 : Bytes)
     (r : Res Integrity) (fs' : FS) : Prop :=
   ∀ sri, r = Except.ok sri → ∃ tm, (∀ t, o.time = some t → tm = t) ∧
     fs'.get (bucketPath cfg cache key) = some (.file (b0 ++ (codec cfg).frame
-      (mkRec key { o with sri := some sri, size := some (o.size.getD chunks.flatten.length) } tm)))
+      (mkRec key { o with sri := some sri, size := some (o.size.getD chunks.flatten.length) } tm))) ∧
+    ((∀ t, o.time = some t → t ≤ timeMax) → tm ≤ timeMax)
 
 theorem growing_of_bucketIs {key : Bytes} {b0 : Bytes} {fs : FS}
     (h : BucketIs fs (bucketPath cfg cache key) b0) : GrowingAny cfg cache key b0 fs :=
@@ -159,9 +160,10 @@ theorem writeStream_keyed_wp (fl : Flavour) (key : Bytes) (o : WriteOpts) (chunk
             have e := hr4 sri hsri
             simp only [Option.getD_some] at e
             subst e
-            obtain ⟨tm, htm, hget⟩ := hb4 _ hsri
-            refine ⟨tm, ?_, ?_⟩
+            obtain ⟨tm, htm, hget, hle⟩ := hb4 _ hsri
+            refine ⟨tm, ?_, ?_, ?_⟩
             · intro t ht; exact htm t (by rw [hopts]; exact ht)
             · rw [hget, hopts, hwritten]
+            · intro hb; exact hle (fun t ht => hb t (by rw [hopts] at ht; exact ht))
 
 end Cacache
